@@ -37,4 +37,8 @@ theorem absent_nil_of_typeOf {v : GoVal} (h : typeOf? v = none) : v = .nil := by
 theorem not_absent_ne_nil {v : GoVal} (h : absent v = false) : v ≠ .nil := by
   intro e; subst e; simp [absent] at h
 
+/-- a dynamic type is never an interface type -/
+theorem typeOf_not_iface {x : GoVal} {t : Ty} (h : typeOf? x = some t) : isIfaceTy t = false := by
+  cases x <;> simp [typeOf?] at h <;> subst h <;> rfl
+
 end FpgoVerif.C01
